@@ -181,7 +181,8 @@ def cli_worker(kp, job):
     records = []
     try:
         texts = {}
-        layout = ['a.krn', 'b.kern', 'sub/c.krn', 'sub/deep/d.krn', 'note.txt', 'sub/a.krn', 'sub/deep/a.krn', 'other/b.kern', 'sub/deep/c.krn']
+        layout = ['a.krn', 'b.kern', 'sub/c.krn', 'sub/deep/d.krn', 'note.txt', 'sub/a.krn', 'sub/deep/a.krn', 'other/b.kern', 'sub/deep/c.krn',
+                  'song.krn', 'song.v2.krn', 'sub/etude.op10.kern']      # dots inside the base name
         for rel in layout:
             g = docs.gen_doc(rng, max_spines=3, measures=rng.randint(1, 2), rest_in_chord=0, comments=False)
             g.nl = rng.choice(['\n', '\r\n'])
